@@ -434,6 +434,10 @@ func mine(i int) bool { return nshards <= 1 || i%nshards == shard }
 // regress re-runs the witnesses of fixed findings (replays/fixed/<pid>-*.json)
 // as plain regression checks before any generated search.
 func regress(t *testing.T, pid string) bool {
+	if os.Getenv("VERIF_NO_REGRESS") != "" {
+		// sensitivity runs: make the generated search find the defect itself
+		return true
+	}
 	files, _ := filepath.Glob(filepath.Join(root, "replays", "fixed", pid+"-*.json"))
 	sort.Strings(files)
 	ok := true
